@@ -1,8 +1,12 @@
 """C07 - request body streams (DESIGN.md section 3, C07).
 
 WSGI (falcon.stream.BoundedStream): R1 every raw-stream use is a size-clamped
-read, R2 sign/partition analysis of the clamp, R3 accounting against the `io`
-contract of the method that is called.  ASGI (falcon.asgi.stream.BoundedStream):
+read, R2 sign/partition analysis of the clamp (looking through helper methods /
+properties of the class; a size the budget can serve is handed on unchanged),
+R3 accounting against the `io` contract of the method that is called, and --
+for every method of the class -- loops that consume body data end on what the
+reads returned or on the live budget, never on a tally of requested sizes;
+exhaust() returns only after an empty read or with the budget used up.  ASGI (falcon.asgi.stream.BoundedStream):
 R4 per-path conservation in the receive loops, R5 termination, R6 lazy
 wrapping on both request classes.
 """
@@ -12,11 +16,12 @@ from __future__ import annotations
 import ast
 
 from ..cfg import cfg_of
+from ..flow import describe_path
 from ..linexpr import Env, Lin, NONE, Seq, fresh, local_edges, loop_heads, paths_from, run_steps, segments
 from ..model import AnchorError, Func, UnknownIdiom, dotted, short, unparse
-from .c07_helpers import (ASGI, BUDGET, WSGI, Verdicts, asgi_constructor, asgi_initial_position, asgi_keys, asgi_loops,
-                          asgi_positions, lazy_wrapping, require_attrs)
-from .common import enclosing_map, walk_self
+from .c07_helpers import (ASGI, BUDGET, WSGI, Inliner, Verdicts, asgi_constructor, asgi_initial_position, asgi_keys, asgi_loops,
+                          asgi_positions, lazy_wrapping, require_attrs, run_steps_inl)
+from .common import ancestors, enclosing_map, walk_self
 
 # `io` documentation: what a raw-stream method returns for a size argument n
 CONTRACT = {
@@ -57,6 +62,65 @@ class Wsgi:
                     raise UnknownIdiom('%s calls several of its parameters' % f.qual)
                 self.gates[f.qual] = (f, called[0], ps.index(called[0]))
         self.methods = [f for f in self.cls.methods.values() if f.name != '__init__']
+        self._reading = None
+        self._budget_props = None
+        # pure helpers (no raw read, directly or through other methods) may be looked through
+        self.inliner = Inliner(p, self.cls, lambda h: h.name != '__init__' and h.qual not in self.gates and h.qual not in self.reading_methods())
+
+    def _callee(self, f, c):
+        if isinstance(c.func, ast.Name) and c.func.id == 'next' and len(c.args) == 1 and dotted(c.args[0]) == 'self':
+            return self.cls.methods.get('__next__')
+        return self.p.callee(f, c)
+
+    def reading_methods(self):
+        """Qualnames of the methods that read from the raw stream, directly or through other methods of the class."""
+        if self._reading is None:
+            reads = {f.qual for f in self.cls.methods.values() if self.read_sites(f)}
+            changed = True
+            while changed:
+                changed = False
+                for f in self.cls.methods.values():
+                    if f.qual in reads:
+                        continue
+                    for c in walk_self(f.node):
+                        if isinstance(c, ast.Call):
+                            t = self._callee(f, c)
+                            if isinstance(t, Func) and t.qual in reads:
+                                reads.add(f.qual)
+                                changed = True
+                                break
+            self._reading = reads
+        return self._reading
+
+    def consuming(self, f, call) -> bool:
+        """Does this call (inside method f) obtain body data: a raw / callback read or a gated read through the class?"""
+        gate = self.gates.get(f.qual)
+        if gate and isinstance(call.func, ast.Name) and call.func.id == gate[1]:
+            return True
+        if self.raw_method(call.func) in CONTRACT:
+            return True
+        t = self._callee(f, call)
+        return isinstance(t, Func) and t.qual in self.reading_methods()
+
+    def budget_props(self):
+        """Names of the properties of the class that are computed from the budget (eof, ...)."""
+        if self._budget_props is None:
+            out = set()
+            changed = True
+            while changed:
+                changed = False
+                for name, f in self.cls.methods.items():
+                    if name in out or not f.is_property():
+                        continue
+                    if any(dotted(x) == BUDGET or (isinstance(x, ast.Attribute) and dotted(x.value) == 'self' and x.attr in out) for x in walk_self(f.node)):
+                        out.add(name)
+                        changed = True
+            self._budget_props = out
+        return self._budget_props
+
+    def mentions_budget(self, e) -> bool:
+        props = self.budget_props()
+        return any(isinstance(x, ast.Attribute) and (dotted(x) == BUDGET or (dotted(x.value) == 'self' and x.attr in props)) for x in walk_self(e))
 
     def gate_of_call(self, func, call):
         tgt = self.p.callee(func, call)
@@ -162,6 +226,9 @@ def _exec_reader(w, f, cfg, setup):
     gate = w.gates.get(f.qual)
 
     def on_call(env, call):
+        looked = Inliner.value_of(env, call)
+        if looked is not None:
+            return looked           # a helper method of the class that was looked through (see Inliner)
         is_cb = gate and isinstance(call.func, ast.Name) and call.func.id == gate[1]
         if is_cb or w.raw_method(call.func) in CONTRACT:
             arg = env.eval(call.args[0]) if len(call.args) == 1 and not call.keywords else None
@@ -181,8 +248,33 @@ def _exec_reader(w, f, cfg, setup):
         rem = env.declare(BUDGET, 'nat')
         if not setup(env, rem):
             continue
-        for e in run_steps(env, cfg, steps):
+        for e in run_steps_inl(env, cfg, steps, w.inliner):
             yield e, e.ghost.get('reads', ())
+
+
+# cells in which the caller asked for a size the budget can serve: the raw stream must be asked for exactly that
+EXACT = {'== 0', 'in (0, remaining]'}
+
+
+def _judge_size(env, arg, rem0, s0, exact):
+    """'ok' | 'unknown' | ('bad', why) for one size handed to the raw stream on one feasible path."""
+    is_none = isinstance(arg, Lin) and arg.lone() is not None and env.is_none.get(arg.lone()) is True
+    if arg is NONE or arg is None or is_none:
+        return ('bad', 'outside [0, remaining budget]')
+    if not isinstance(arg, Lin):
+        return 'unknown'
+    if not (env.prove_le(0, arg) and env.prove_le(arg, rem0)):
+        return ('bad', 'outside [0, remaining budget]') if env.prove_lt(arg, 0) or env.prove_lt(rem0, arg) else 'unknown'
+    if not exact or s0 is None or env.prove_eq(arg, s0):
+        return 'ok'
+    if env.prove_lt(s0, arg):
+        return ('bad', 'more than the requested size (a sized read returns more than its size)')
+    if env.prove_eq(arg, 0) and env.prove_le(1, s0):
+        return ('bad', 'zero for a positive size within the budget (an empty result although data remain)')
+    strict = env.fork()
+    if strict.add_le(s0 + Lin.const(1), rem0) and strict.prove_lt(s0, arg):
+        return ('bad', 'more than the requested size whenever more than that is left (a sized read returns more than its size)')
+    return 'unknown'
 
 
 def r2_clamp_domain(run):
@@ -206,26 +298,32 @@ def r2_clamp_domain(run):
             bad, unknown, n = {}, [], 0
             for env, reads in _exec_reader(w, f, cfg, setup):
                 rem0 = env.var(BUDGET)
+                s0 = env.var(sp) if sp else None
                 for (call, arg, _res) in reads:
                     n += 1
-                    if isinstance(arg, Lin) and env.prove_le(0, arg) and env.prove_le(arg, rem0):
-                        continue
-                    is_none = isinstance(arg, Lin) and arg.lone() is not None and env.is_none.get(arg.lone()) is True
-                    if arg is NONE or arg is None or is_none or (isinstance(arg, Lin) and (env.prove_lt(arg, 0) or env.prove_lt(rem0, arg))):
-                        bad['%s [%s %s]' % (unparse(call), sp or 'size', cname)] = (call, arg)
-                    else:
+                    verdict = _judge_size(env, arg, rem0, s0, cname in EXACT)
+                    if verdict == 'unknown':
                         unknown.append('%s: cannot bound %r for %s %s' % (f.qual, arg, sp, cname))
+                    elif verdict != 'ok':
+                        bad.setdefault('%s [%s %s]' % (unparse(call), sp or 'size', cname), (call, arg, verdict[1]))
             where = f.loc()
-            for cons, (call, arg) in sorted(bad.items()):
-                run.fail('for %s %s the size handed to the raw stream is %s, outside [0, remaining budget]' % (sp or 'size', cname, 'None' if cname == 'is None' else repr(arg)),
+            through = ''
+            if w.inliner.used:
+                through = ' (looking through %s)' % ', '.join(sorted(q.rsplit('.', 1)[1] for q in w.inliner.used))
+                for q in w.inliner.used:
+                    run.use(run.project.func(q))
+            for cons, (call, arg, why) in sorted(bad.items()):
+                run.fail('for %s %s the size handed to the raw stream%s is %s, %s' % (sp or 'size', cname, through, 'None' if cname == 'is None' else repr(arg), why),
                          f, cons, where=f.loc(call),
-                         runtime_witness='%s(%s) with %s %s on a body longer than Content-Length reads past the declared length'
-                                         % (f.name, sp, sp, cname))
+                         runtime_witness=('%s(%s) with %s %s on a body longer than Content-Length reads past the declared length' % (f.name, sp, sp, cname))
+                         if why.startswith('outside') else
+                         ('%s(%s) with %s %s while part of the body is still unread returns a different amount than was asked for (read(0) must return b"")'
+                          % (f.name, sp, sp, cname)))
             if unknown and not bad:
                 pending.append(unknown[0])
             elif not bad:
-                run.ok('for %s %s every size handed to the raw stream lies in [0, remaining budget] (%d read(s) on the feasible paths)'
-                       % (sp or 'size', cname, n), where, '%s [%s]' % (f.name, cname))
+                run.ok('for %s %s every size handed to the raw stream%s lies in [0, remaining budget]%s (%d read(s) on the feasible paths)'
+                       % (sp or 'size', cname, through, ' and is exactly the requested size' if cname in EXACT else '', n), where, '%s [%s]' % (f.name, cname))
     if pending:
         raise UnknownIdiom('; '.join(pending[:3]))
 
@@ -247,7 +345,8 @@ def r3_accounting(run):
             call, arg, res = reads[0]
             d = env.var(BUDGET) - env.eval(ast.parse(BUDGET, mode='eval').body)
             if isinstance(arg, Lin) and env.same(d, arg):
-                how.add('request')
+                # (a request for 0 bytes obtains 0 bytes under every sized contract: nothing to deduct)
+                how.add('result' if arg.is_const and arg.c == 0 else 'request')
             elif env.same(d, Lin.atom(('len', res))):
                 how.add('result')
             elif env.same(d, 0):
@@ -291,8 +390,391 @@ def r3_accounting(run):
                          f, c, runtime_witness='body b"a\\nbcdef": %s() returns b"a\\n", a following read() returns b"" and eof is true' % f.name)
             elif how and how <= {'request', 'result'}:
                 run.ok(what + ' (%s contract of io.%s, deduction by %s)' % (contract, meth, '/'.join(sorted(how))), f.loc(c), c)
+    # decisions elsewhere in the class about how much has been consumed
+    v = Verdicts(run)
+    seen = set()
+    _consumption_decisions(run, w, v, seen)
+    _exhaust_exits(run, w, v, seen)
     if pending:
         raise UnknownIdiom('; '.join(pending[:3]))
+    v.flush()
+
+
+# ---------------------------------------------------------------------------
+# R3 (continued): every decision about how much of the body has been consumed
+# rests on the bytes obtained or on the shared budget (which R3 proves is
+# decremented by the bytes obtained) -- never on the sizes that were asked for
+# ---------------------------------------------------------------------------
+
+_PURE = {'len', 'min', 'max', 'abs', 'int', 'bool'}
+_MUTATORS = {'append', 'extend', 'insert', 'add', 'update', 'write', 'appendleft'}
+_BUDGET_E = ast.parse(BUDGET, mode='eval').body
+
+
+def _names(e):
+    return {x.id for x in walk_self(e) if isinstance(x, ast.Name)}
+
+
+def _target_names(t):
+    if isinstance(t, ast.Name):
+        return [t.id]
+    if isinstance(t, (ast.Tuple, ast.List)):
+        return [n for x in t.elts for n in _target_names(x)]
+    if isinstance(t, ast.Starred):
+        return _target_names(t.value)
+    root = t
+    while isinstance(root, (ast.Attribute, ast.Subscript)):
+        root = root.value
+    return [root.id] if isinstance(root, ast.Name) and root.id != 'self' else []
+
+
+def _reasons(t, v):
+    """Alternative sets of atomic tests: `t` has truth value `v` iff all atoms of one alternative have theirs."""
+    if isinstance(t, ast.UnaryOp) and isinstance(t.op, ast.Not):
+        return _reasons(t.operand, not v)
+    if isinstance(t, ast.BoolOp):
+        parts = [_reasons(x, v) for x in t.values]
+        if isinstance(t.op, ast.And) == v:
+            out = [[]]
+            for alts in parts:
+                out = [g + h for g in out for h in alts]
+            return out
+        return [g for alts in parts for g in alts]
+    return [[t]]
+
+
+def _atoms(t):
+    return [a for g in _reasons(t, True) for a in g]
+
+
+class Consumption:
+    """Data dependence of one method's decisions on what its reads returned."""
+
+    def __init__(self, w, f):
+        self.w, self.f = w, f
+        self.parent = enclosing_map(f.node)
+        self.loops = [x for x in walk_self(f.node) if isinstance(x, (ast.While, ast.For, ast.AsyncFor))]
+
+    def has_consuming(self, e):
+        return any(isinstance(c, ast.Call) and self.w.consuming(self.f, c) for c in walk_self(e))
+
+    def region(self, lp):
+        return ([lp.test] if isinstance(lp, ast.While) else []) + list(lp.body)
+
+    def defs(self, nodes):
+        """name -> expressions its value (or content) is computed from, for the assignments inside `nodes`."""
+        d = {}
+
+        def add(names, value):
+            for n in names:
+                d.setdefault(n, []).append(value)
+
+        for top in nodes:
+            for x in walk_self(top):
+                if isinstance(x, ast.Assign):
+                    for t in x.targets:
+                        add(_target_names(t), x.value)
+                elif isinstance(x, ast.AugAssign):
+                    add(_target_names(x.target), x.value)
+                elif isinstance(x, ast.AnnAssign) and x.value is not None:
+                    add(_target_names(x.target), x.value)
+                elif isinstance(x, ast.NamedExpr):
+                    add(_target_names(x.target), x.value)
+                elif isinstance(x, (ast.For, ast.AsyncFor)):
+                    add(_target_names(x.target), x.iter)
+                elif isinstance(x, (ast.With, ast.AsyncWith)):
+                    for it in x.items:
+                        if it.optional_vars is not None:
+                            add(_target_names(it.optional_vars), it.context_expr)
+                elif isinstance(x, ast.Call) and isinstance(x.func, ast.Attribute) and x.func.attr in _MUTATORS and isinstance(x.func.value, ast.Name):
+                    for a in x.args:
+                        add([x.func.value.id], a)
+        return d
+
+    def closure(self, defs, seed):
+        """Names whose definitions (transitively) satisfy `seed(expr)`."""
+        out = set()
+        changed = True
+        while changed:
+            changed = False
+            for n, rhss in defs.items():
+                if n not in out and any(seed(r) or (_names(r) & out) for r in rhss):
+                    out.add(n)
+                    changed = True
+        return out
+
+    def classify(self, atom, varying, rd, bd):
+        """J: the test looks at what was obtained / at the live budget; V: it looks at a loop-varying local that does not;
+        N: loop-invariant; U: not understood."""
+        if self.has_consuming(atom) or self.w.mentions_budget(atom) or (_names(atom) & (rd | bd)):
+            return 'J'
+        for x in walk_self(atom):
+            if isinstance(x, ast.Call) and not (isinstance(x.func, ast.Name) and x.func.id in _PURE):
+                return 'U'
+            if isinstance(x, ast.Attribute) and (dotted(x) or '').split('.')[0] == 'self':
+                return 'U'
+            if isinstance(x, (ast.Subscript, ast.Await, ast.Yield, ast.YieldFrom, ast.NamedExpr, ast.Lambda)):
+                return 'U'
+        return 'V' if _names(atom) & varying else 'N'
+
+    def exits(self, lp):
+        """(alternatives, construct text, node): the decisions that end loop `lp` normally (break / return / loop test)."""
+        out = []
+        if isinstance(lp, ast.While) and not (isinstance(lp.test, ast.Constant) and bool(lp.test.value)):
+            out.append((_reasons(lp.test, False), 'while ' + unparse(lp.test), lp.test))
+        for s in lp.body:
+            for x in walk_self(s):
+                if not isinstance(x, (ast.Break, ast.Return)):
+                    continue
+                alts, inner, child, cons = [[]], None, x, None
+                for a in ancestors(x, self.parent):
+                    if a is lp:
+                        break
+                    if isinstance(a, (ast.While, ast.For, ast.AsyncFor)) and isinstance(x, ast.Break):
+                        alts = None
+                        break
+                    if isinstance(a, ast.If) and child is not a.test:
+                        pol = any(child is b for b in a.body)
+                        alts = [g + h for g in alts for h in _reasons(a.test, pol)]
+                        if cons is None:
+                            cons, inner = 'if ' + unparse(a.test), a.test
+                    child = a
+                if alts is None or cons is None:
+                    continue            # break of an inner loop / unconditional exit
+                out.append((alts, cons, inner))
+        return out
+
+
+def _consumption_decisions(run, w, v, seen):
+    """Every loop of the class that consumes body data: each way of leaving it is decided by what the reads returned or by
+    the live budget; a local countdown of the sizes asked for decides nothing about how much has been consumed."""
+    what = 'a loop that consumes body data ends on what its reads returned or on the live budget, not on a tally of the sizes asked for'
+    for f in sorted(w.methods, key=lambda f: f.qual):
+        c = Consumption(w, f)
+        for lp in c.loops:
+            region = c.region(lp)
+            if not any(c.has_consuming(x) for x in region):
+                continue
+            run.use(f)
+            defs = c.defs(region)
+            rd = c.closure(defs, c.has_consuming)
+            bd = c.closure(defs, w.mentions_budget)
+            alldefs = c.defs(f.node.body)
+            # locals that tally sizes: computed from a snapshot of the budget or from what the reads are asked for
+            asked = set()
+            for x in region:
+                for call in walk_self(x):
+                    if isinstance(call, ast.Call) and w.consuming(f, call):
+                        for a in list(call.args) + [k.value for k in call.keywords]:
+                            asked |= _names(a)
+            sizes = c.closure(alldefs, lambda r: w.mentions_budget(r) or bool(_names(r) & asked)) | asked
+            varying = set(defs) & sizes         # (a loop-varying local that tallies nothing, e.g. a line count, decides nothing about consumption)
+            if not isinstance(lp, ast.While):
+                it, head = lp.iter, 'for %s in %s' % (unparse(lp.target), unparse(lp.iter))
+                snap = c.closure(alldefs, w.mentions_budget)
+                if c.has_consuming(it) or dotted(it) == 'self':
+                    v.note(f, 'exit ' + head, what, True, head)
+                elif isinstance(it, ast.Call) and isinstance(it.func, ast.Name) and it.func.id == 'range' and (w.mentions_budget(it) or (_names(it) & snap)):
+                    if (f.qual, head) not in seen:
+                        seen.add((f.qual, head))
+                        v.note(f, 'exit ' + head, what, False, head,
+                               'the number of reads is fixed from a snapshot of the budget before the first read: each read(n) is assumed to return n bytes',
+                               rw='a wsgi.input that returns short reads: %s() returns with part of the declared body unread, eof stays False' % f.name)
+                else:
+                    v.unknown('%s: `%s` around a read of the body is not an understood way of bounding consumption' % (f.qual, head))
+            for alts, cons, node in c.exits(lp):
+                verdicts = []
+                for g in alts:
+                    kinds = [c.classify(a, varying, rd, bd) for a in g]
+                    verdicts.append('ok' if 'J' in kinds else 'unknown' if 'U' in kinds else 'bad' if 'V' in kinds else 'neutral')
+                if 'bad' in verdicts:
+                    if (f.qual, cons) in seen:
+                        continue
+                    seen.add((f.qual, cons))
+                    locs = sorted(n for g in alts for a in g for n in (_names(a) & varying) - rd - bd)
+                    v.note(f, 'exit ' + cons, what, False, cons,
+                           'the loop around a read of the body ends on `%s`, which is never updated from what a read returned nor from %s: '
+                           'it tallies sizes that were asked for, not bytes obtained' % (', '.join(locs), BUDGET.split('.')[1]),
+                           rw='a wsgi.input that returns short reads (read(n) may return fewer than n bytes): %s() returns with part of the '
+                              'declared body unread, eof stays False and the next read hands out bytes that should be gone' % f.name)
+                elif 'unknown' in verdicts:
+                    v.unknown('%s: cannot tell what `%s` (ending a loop that reads the body) depends on' % (f.qual, cons))
+                elif 'ok' in verdicts:
+                    v.note(f, 'exit ' + cons, what, True, cons)
+
+
+def _is_empty_const(x):
+    return isinstance(x, ast.Constant) and isinstance(x.value, (bytes, str)) and len(x.value) == 0
+
+
+class _EmptyCompare(ast.NodeTransformer):
+    """`x == b''` / `x != b''`  ->  `len(x) == 0` / `len(x) != 0` (the evaluator models lengths, not byte strings)."""
+
+    def visit_Compare(self, n):
+        if len(n.ops) == 1 and isinstance(n.ops[0], (ast.Eq, ast.NotEq)):
+            a, b = n.left, n.comparators[0]
+            if _is_empty_const(a) and not _is_empty_const(b):
+                a, b = b, a
+            if _is_empty_const(b) and isinstance(a, (ast.Name, ast.Call)):
+                return ast.copy_location(ast.Compare(ast.Call(ast.Name('len', ast.Load()), [a], []), [n.ops[0]], [ast.Constant(0)]), n)
+        return n
+
+    def visit_Lambda(self, n):
+        return n
+
+
+_norm_cache = {}
+
+
+def _norm_test(t):
+    """The test with comparisons against an empty constant turned into length tests (the original node when nothing changes,
+    one stable copy otherwise -- sub-expressions are shared with the original, so call sites keep their identity)."""
+    if not any(isinstance(x, ast.Compare) and len(x.ops) == 1 and (_is_empty_const(x.left) or _is_empty_const(x.comparators[0])) for x in walk_self(t)):
+        return t
+    if id(t) not in _norm_cache:
+        _norm_cache[id(t)] = (t, ast.fix_missing_locations(_EmptyCompare().visit(_shallow_copy(t))))
+    return _norm_cache[id(t)][1]
+
+
+def _shallow_copy(t):
+    """Copy of the boolean skeleton (BoolOp / not / Compare nodes) of a test; operands are shared."""
+    if isinstance(t, ast.BoolOp):
+        return ast.copy_location(ast.BoolOp(t.op, [_shallow_copy(v) for v in t.values]), t)
+    if isinstance(t, ast.UnaryOp) and isinstance(t.op, ast.Not):
+        return ast.copy_location(ast.UnaryOp(t.op, _shallow_copy(t.operand)), t)
+    if isinstance(t, ast.Compare):
+        return ast.copy_location(ast.Compare(t.left, list(t.ops), list(t.comparators)), t)
+    return t
+
+
+def _exact_test(w, f, atom, rd, direct):
+    """Is the abstract reading of this atomic test exact (linear comparison / emptiness of a read result / live budget)?"""
+    def term(x):
+        if isinstance(x, ast.Constant):
+            return isinstance(x.value, int) and not isinstance(x.value, bool)
+        if isinstance(x, ast.Name):
+            return x.id not in rd
+        if isinstance(x, ast.Attribute):
+            return dotted(x) == BUDGET
+        if isinstance(x, ast.UnaryOp) and isinstance(x.op, ast.USub):
+            return term(x.operand)
+        if isinstance(x, ast.BinOp) and isinstance(x.op, (ast.Add, ast.Sub)):
+            return term(x.left) and term(x.right)
+        if isinstance(x, ast.Call) and isinstance(x.func, ast.Name) and x.func.id == 'len' and len(x.args) == 1 and not x.keywords:
+            a = x.args[0]
+            return (isinstance(a, ast.Name) and a.id in direct) or (isinstance(a, ast.Call) and w.consuming(f, a))
+        if isinstance(x, ast.Call) and isinstance(x.func, ast.Name) and x.func.id in ('min', 'max') and len(x.args) >= 2 and not x.keywords:
+            return all(term(a) for a in x.args)
+        return False
+
+    if isinstance(atom, ast.Compare):
+        return len(atom.ops) == 1 and isinstance(atom.ops[0], (ast.Lt, ast.LtE, ast.Gt, ast.GtE, ast.Eq, ast.NotEq)) \
+            and term(atom.left) and term(atom.comparators[0])
+    if isinstance(atom, ast.Name):
+        return atom.id in direct or atom.id not in rd
+    if isinstance(atom, ast.Call):
+        return w.consuming(f, atom)
+    if isinstance(atom, ast.Attribute):
+        return dotted(atom) == BUDGET or (dotted(atom.value) == 'self' and atom.attr in w.budget_props() and w.inliner.target(f, atom, 0) is not None)
+    return False
+
+
+def _exhaust_exits(run, w, v, seen):
+    """exhaust(): on every normal way out, the last read came back empty or the live budget is used up."""
+    p = run.project
+    f = p.func(WSGI + '.exhaust')
+
+    def procedure(g, call):
+        t = w._callee(g, call) if isinstance(call, ast.Call) and isinstance(call.func, ast.Attribute) and dotted(call.func.value) == 'self' else None
+        if isinstance(t, Func) and t.qual in w.reading_methods() and not any(isinstance(r, ast.Return) and r.value is not None for r in walk_self(t.node)):
+            return t
+        return None
+
+    for _ in range(2):      # pure delegation: `def exhaust(...): self._drain(...)`
+        body = [s for s in f.node.body if not (isinstance(s, ast.Expr) and isinstance(s.value, ast.Constant))]
+        t = procedure(f, body[0].value) if len(body) == 1 and isinstance(body[0], (ast.Expr, ast.Return)) and body[0].value is not None else None
+        if t is None:
+            break
+        f = t
+    if f.qual not in w.reading_methods():
+        raise UnknownIdiom('%s does not read from the stream' % f.qual)
+    cfg = cfg_of(f, p)
+    run.use_cfg(cfg)
+    c = Consumption(w, f)
+    alldefs = c.defs(f.node.body)
+    rd = c.closure(alldefs, c.has_consuming)
+    bd = c.closure(alldefs, w.mentions_budget)
+    # locals that hold nothing but the result of one read
+    direct = {n for n, rhss in alldefs.items() if all(isinstance(r, ast.Call) and w.consuming(f, r) for r in rhss)}
+    varying = set()
+    heads = set()
+    for lp in c.loops:
+        varying |= set(c.defs(c.region(lp)))
+        if any(c.has_consuming(x) for x in c.region(lp)):
+            heads |= {i for i in cfg.nodes_for(lp) if (cfg.node(i).kind == 'test' and cfg.node(i).ast is getattr(lp, 'test', None)) or cfg.node(i).kind == 'iter'}
+
+    def on_call(env, call):
+        looked = Inliner.value_of(env, call)
+        if looked is not None:
+            return looked
+        is_self = isinstance(call.func, ast.Attribute) and dotted(call.func.value) == 'self'
+        if w.consuming(f, call):
+            for a in list(call.args) + [k.value for k in call.keywords]:
+                env.eval(a)
+            if procedure(f, call) is not None:
+                env.ghost['delegated'] = call        # returns no data: what it consumed cannot be judged here
+            res = fresh('result of ' + short(call, 40))
+            env.kind[res] = 'seq'
+            env.ghost['creads'] = env.ghost.get('creads', ()) + ((call, res),)
+        if is_self or w.consuming(f, call):
+            env.havoc([BUDGET], 'after ' + short(call, 30))
+            env.kind[env.vars[BUDGET].lone()] = 'nat'
+        return Lin.atom(res) if w.consuming(f, call) else None
+
+    what = 'exhaust() returns only when a read came back empty or the live budget is used up'
+    n = 0
+    for start, steps, end in segments(cfg):
+        if end != cfg.exit:
+            continue
+        tests = [cfg.node(i) for i, l in steps if cfg.node(i).kind == 'test' and l in ('T', 'F')]
+        atoms = [a for t in tests for a in _atoms(_norm_test(t.ast))]
+        env = Env(on_call)
+        env.declare(BUDGET, 'nat')
+        for e in run_steps_inl(env, cfg, steps, w.inliner, rewrite=_norm_test):
+            reads = e.ghost.get('creads', ())
+            if any(k == 'raise' for k, _v, _n in e.log) or (not reads and start not in heads):
+                continue            # not a decision about consumption: nothing was read and no consuming loop is being left
+            n += 1
+            if not atoms and not reads:
+                continue            # iterator exhaustion of a `for`: judged with the loop
+            bud = e.eval(_BUDGET_E)
+            if any(e.prove_eq(Lin.atom(('len', r)), 0) for _c, r in reads) or (isinstance(bud, Lin) and e.prove_le(bud, 0)):
+                v.note(f, 'exhausted on return', what, True)
+                continue
+            kinds = [c.classify(a, varying, rd, bd) for a in atoms]
+            if not reads and all(k == 'N' for k in kinds):
+                continue            # left on a loop-invariant condition (e.g. a zero chunk size): no progress is being judged
+            last = tests[-1] if tests else None
+            cons = (('while ' if isinstance(last.stmt, ast.While) and last.ast is last.stmt.test else 'if ') + unparse(last.ast)) if last is not None \
+                else unparse(reads[-1][0])
+            if 'U' in kinds or e.ghost.get('delegated') is not None or any(k == 'J' and not _exact_test(w, f, a, rd, direct) for k, a in zip(kinds, atoms)):
+                v.unknown('%s: cannot tell whether the body is used up when the method returns after `%s`' % (f.qual, cons))
+                continue
+            probe = e.fork()
+            if not (all(probe.add_le(1, Lin.atom(('len', r))) for _c, r in reads) and isinstance(bud, Lin) and probe.add_le(1, bud)):
+                v.unknown('%s: cannot tell whether the body is used up when the method returns after `%s`' % (f.qual, cons))
+                continue
+            if (f.qual, cons) in seen:
+                continue
+            seen.add((f.qual, cons))
+            v.note(f, 'exit ' + cons, what, False, cons,
+                   'exhaust() can return after `%s` although the last read returned data and the budget is not used up: '
+                   'it relies on read(n) returning exactly n bytes' % cons,
+                   describe_path(cfg, [st[0] for st in steps]),
+                   'a wsgi.input that returns short reads: exhaust() returns with part of the declared body unread, eof stays False and the '
+                   'next read hands out bytes that should have been discarded')
+    if n == 0:
+        v.unknown('%s: no way out of the method was recognised as a decision about consumption' % f.qual)
 
 
 # ---------------------------------------------------------------------------
@@ -328,7 +810,7 @@ def check(run):
     run.assume('C07: an ASGI http.request event carries bytes under "body"; receive() returns a dict')
     run.rule('R1', r1_single_gate, 'WSGI: every raw-stream use is a clamped, accounted read', floor=2)
     run.rule('R2', r2_clamp_domain, 'WSGI: the clamp covers the whole domain of the size argument', floor=6)
-    run.rule('R3', r3_accounting, 'WSGI: the amount deducted is the number of bytes obtained', floor=2)
+    run.rule('R3', r3_accounting, 'WSGI: the amount deducted is the number of bytes obtained; decisions about consumption rest on bytes obtained', floor=4)
     run.rule('R4', r4_conservation, 'ASGI: per-path conservation in the receive loops', floor=10)
     run.rule('R5', r5_termination, 'ASGI: loops end on disconnect / missing keys; constructor clamps', floor=10)
     run.rule('R6', r6_lazy, 'lazy, memoised wrapping from Content-Length', floor=4)
